@@ -1462,78 +1462,141 @@ Lemma closes_braces : forall B rest, closes (braces B ++ rest).
 Proof. intros. reflexivity. Qed.
 
 (* ------------------------------------------------------------------ *)
-(* if                                                                  *)
+(* if / else if / else                                                 *)
 (* ------------------------------------------------------------------ *)
 
-Lemma prefc_if_none : forall C c tn fn dc hc B1 cns d1 h1,
-  InnerOK C c tn fn dc hc -> StmtsOK tn (fn && negb hc) B1 cns d1 h1 ->
-  PrefcOK (tk TIf :: tk TLParen :: C ++ tk TRParen :: braces B1) (EIf c cns None) tn fn
-          (1 + N.max dc d1) (hc || h1).
+(* toks begin with `if` and, read by parse_if (on entry cur = `if`), give e when a
+   closing token follows *)
+Definition IfOK' (toks : list token) (e : expr) (tn fn : bool) (dn : N) (hf : bool) : Prop :=
+  (exists r, toks = tk TIf :: r) /\
+  forall rest f s, closes rest -> pos (toks ++ rest) s -> tern s = tn -> infn s = fn -> fits (depth s) dn ->
+    (2 * List.length toks <= S (S f))%nat ->
+    exists s', parse_if pf md f s = POk e s' /\ post s s' rest hf.
+
+Lemma prefc_of_if : forall toks e tn fn dn hf, IfOK' toks e tn fn dn hf -> PrefcOK toks e tn fn dn hf.
 Proof.
-  intros C c tn fn dc hc B1 cns d1 h1 HC HB. split; [apply begins_cons; reflexivity|].
+  intros toks e tn fn dn hf [[r E] H]. split; [subst toks; apply begins_cons; reflexivity|].
   intros rest f s Hcl Hpos Htn Hfn Hfit Hf.
-  cbn [app] in Hpos. rewrite <- app_assoc in Hpos. cbn [app] in Hpos.
-  apply pos_cons in Hpos. destruct Hpos as [Hcur Hbef].
-  len. rewrite braces_len in Hf. destruct f as [|[|f]]; try lia.
-  rewrite parse_prefix_S, Hcur. cbn [tty tk tlit].
+  destruct f as [|f]; [subst toks; cbn [List.length] in Hf; lia|].
+  assert (Hcur : curT s = tk TIf) by (subst toks; apply Hpos).
+  destruct (H rest f s Hcl Hpos Htn Hfn Hfit Hf) as (s' & E' & HP).
+  exists s'. split; [|exact HP]. rewrite parse_prefix_S, Hcur. exact E'.
+Qed.
+
+(* if ( c ) { block } : the part common to the three forms *)
+Definition if_tail (f : nat) (c : expr) (cns : list stmt) (s5 : pst) : pr expr :=
+  if peek_is s5 TElse then
+    let s6 := next s5 in
+    if peek_is s6 TIf then
+      pbind (parse_if pf md f (next s6)) (fun e s7 => POk (EIf c cns (Some [SExpr e])) s7)
+    else
+      pbind (expect_peek s6 TLBrace) (fun _ s7 =>
+      pbind (parse_block pf md f s7) (fun alt s8 => POk (EIf c cns (Some alt)) s8))
+  else POk (EIf c cns None) s5.
+
+Lemma if_head : forall C c tn fn dc hc B1 cns d1 h1,
+  InnerOK C c tn fn dc hc -> StmtsOK tn (fn && negb hc) B1 cns d1 h1 ->
+  forall rest f s, curT s = tk TIf -> before (tk TLParen :: C ++ tk TRParen :: braces B1 ++ rest) s ->
+    tern s = tn -> infn s = fn -> fits (depth s) (1 + N.max dc d1) ->
+    (2 * List.length C <= f)%nat -> (2 * List.length B1 + 2 <= f)%nat ->
+    exists s5,
+      parse_if pf md (S f) s = restore (depth s) (if_tail f c cns s5) /\
+      before rest s5 /\ tern s5 = tn /\ depth s5 = depth s + 1 /\ infn s5 = fn && negb hc && negb h1.
+Proof.
+  intros C c tn fn dc hc B1 cns d1 h1 HC HB rest f s Hcur Hbef Htn Hfn Hfit HfC HfB.
   rewrite parse_if_S, (deeper_fits s _ Hfit) by lia. cbn [pbind].
   destruct (cond_ok _ _ _ _ _ _ HC (braces B1 ++ rest) f (set_depth s (depth s + 1)))
     as (s2 & E1 & E2 & E3 & Hb3 & Ht3 & Hd3 & Hi3); try assumption.
   { rewrite depth_sd. eapply fits_sub; [exact Hfit|lia]. }
-  { lia. }
   rewrite E1. cbn [pbind]. rewrite E2. cbn [pbind]. rewrite E3. cbn [pbind].
   autorewrite with st in *.
   destruct (braces_ok _ _ _ _ _ _ HB rest f (next s2) Hb3) as (s5 & E4 & E5 & Hb5 & Ht5 & Hd5 & Hi5).
   { autorewrite with st; congruence. }
   { autorewrite with st; rewrite Hi3, Hfn. reflexivity. }
   { autorewrite with st; rewrite Hd3. eapply fits_sub; [exact Hfit|lia]. }
-  { lia. }
+  { exact HfB. }
   rewrite E4. cbn [pbind]. rewrite E5. cbn [pbind].
-  rewrite (closes_not_else rest s5 Hcl Hb5). cbn [restore].
-  eexists; split; [reflexivity|]. autorewrite with st in *. post_tac.
-  rewrite Hi5, Hi3. apply andb_negb_orb.
+  exists s5. split; [reflexivity|]. autorewrite with st in *.
+  split; [exact Hb5|]. split; [congruence|]. split; [congruence|]. rewrite Hi5, Hi3, Hfn. reflexivity.
 Qed.
 
-Lemma prefc_if_some : forall C c tn fn dc hc B1 cns d1 h1 B2 alt d2 h2,
+Lemma if_none : forall C c tn fn dc hc B1 cns d1 h1,
+  InnerOK C c tn fn dc hc -> StmtsOK tn (fn && negb hc) B1 cns d1 h1 ->
+  IfOK' (tk TIf :: tk TLParen :: C ++ tk TRParen :: braces B1) (EIf c cns None) tn fn
+        (1 + N.max dc d1) (hc || h1).
+Proof.
+  intros C c tn fn dc hc B1 cns d1 h1 HC HB. split; [eexists; reflexivity|].
+  intros rest f s Hcl Hpos Htn Hfn Hfit Hf.
+  cbn [app] in Hpos. rewrite <- app_assoc in Hpos. cbn [app] in Hpos.
+  apply pos_cons in Hpos. destruct Hpos as [Hcur Hbef].
+  len. rewrite braces_len in Hf. destruct f as [|f]; try lia.
+  destruct (if_head _ _ _ _ _ _ _ _ _ _ HC HB rest f s Hcur Hbef Htn Hfn Hfit) as (s5 & E & Hb5 & Ht5 & Hd5 & Hi5);
+    try lia.
+  rewrite E. unfold if_tail. rewrite (closes_not_else rest s5 Hcl Hb5). cbn [restore].
+  eexists; split; [reflexivity|]. post_tac.
+  rewrite Hi5, Hfn. apply andb_negb_orb.
+Qed.
+
+Lemma if_block : forall C c tn fn dc hc B1 cns d1 h1 B2 alt d2 h2,
   InnerOK C c tn fn dc hc -> StmtsOK tn (fn && negb hc) B1 cns d1 h1 ->
   StmtsOK tn (fn && negb hc && negb h1) B2 alt d2 h2 ->
-  PrefcOK (tk TIf :: tk TLParen :: C ++ tk TRParen :: braces B1 ++ tk TElse :: braces B2)
-          (EIf c cns (Some alt)) tn fn (1 + N.max dc (N.max d1 d2)) (hc || h1 || h2).
+  IfOK' (tk TIf :: tk TLParen :: C ++ tk TRParen :: braces B1 ++ tk TElse :: braces B2)
+        (EIf c cns (Some alt)) tn fn (1 + N.max dc (N.max d1 d2)) (hc || h1 || h2).
 Proof.
-  intros C c tn fn dc hc B1 cns d1 h1 B2 alt d2 h2 HC HB1 HB2. split; [apply begins_cons; reflexivity|].
+  intros C c tn fn dc hc B1 cns d1 h1 B2 alt d2 h2 HC HB1 HB2. split; [eexists; reflexivity|].
   intros rest f s Hcl Hpos Htn Hfn Hfit Hf.
   cbn [app] in Hpos. rewrite <- app_assoc in Hpos. cbn [app] in Hpos.
   rewrite <- app_assoc in Hpos. cbn [app] in Hpos.
   apply pos_cons in Hpos. destruct Hpos as [Hcur Hbef].
-  len. rewrite !braces_len in Hf. destruct f as [|[|f]]; try lia.
-  rewrite parse_prefix_S, Hcur. cbn [tty tk tlit].
-  rewrite parse_if_S, (deeper_fits s _ Hfit) by lia. cbn [pbind].
-  destruct (cond_ok _ _ _ _ _ _ HC (braces B1 ++ tk TElse :: braces B2 ++ rest) f (set_depth s (depth s + 1)))
-    as (s2 & E1 & E2 & E3 & Hb3 & Ht3 & Hd3 & Hi3); try assumption.
-  { rewrite depth_sd. eapply fits_sub; [exact Hfit|lia]. }
-  { lia. }
-  rewrite E1. cbn [pbind]. rewrite E2. cbn [pbind]. rewrite E3. cbn [pbind].
-  autorewrite with st in *.
-  destruct (braces_ok _ _ _ _ _ _ HB1 (tk TElse :: braces B2 ++ rest) f (next s2) Hb3)
-    as (s5 & E4 & E5 & Hb5 & Ht5 & Hd5 & Hi5).
-  { autorewrite with st; congruence. }
-  { autorewrite with st; rewrite Hi3, Hfn. reflexivity. }
-  { autorewrite with st; rewrite Hd3. eapply fits_sub; [exact Hfit|lia]. }
-  { lia. }
-  rewrite E4. cbn [pbind]. rewrite E5. cbn [pbind].
-  rewrite (peek_is_hd _ _ _ _ Hb5). cbn [tty tk tokty_beq].
+  len. rewrite !braces_len in Hf. destruct f as [|f]; try lia.
+  destruct (if_head _ _ _ _ _ _ _ _ _ _ HC HB1 (tk TElse :: braces B2 ++ rest) f s Hcur Hbef Htn Hfn)
+    as (s5 & E & Hb5 & Ht5 & Hd5 & Hi5); try lia; [eapply fits_le; [exact Hfit|lia]|].
+  rewrite E. unfold if_tail. rewrite (peek_is_hd _ _ _ _ Hb5). cbn [tty tk tokty_beq].
   destruct (before_step _ _ _ Hb5) as [_ Hb6].
   assert (Hpk : peek_is (next s5) TIf = false).
   { unfold peek_is. rewrite (proj1 Hb6). reflexivity. }
-  rewrite Hpk. autorewrite with st in *.
+  rewrite Hpk.
   destruct (braces_ok _ _ _ _ _ _ HB2 rest f (next s5) Hb6) as (s8 & E7 & E8 & Hb8 & Ht8 & Hd8 & Hi8).
   { autorewrite with st. congruence. }
-  { autorewrite with st. rewrite Hi5, Hi3, Hfn. reflexivity. }
-  { autorewrite with st. rewrite Hd5, Hd3. eapply fits_sub; [exact Hfit|lia]. }
+  { autorewrite with st. exact Hi5. }
+  { autorewrite with st. rewrite Hd5. eapply fits_sub; [exact Hfit|lia]. }
   { lia. }
   rewrite E7. cbn [pbind]. rewrite E8. cbn [pbind restore].
   eexists; split; [reflexivity|]. autorewrite with st in *. post_tac.
-  rewrite Hi8, Hi5, Hi3. destruct (infn s), hc, h1, h2; reflexivity.
+  rewrite Hi8, Hi5, Hfn. destruct fn, hc, h1, h2; reflexivity.
+Qed.
+
+Lemma if_elif : forall C c tn fn dc hc B1 cns d1 h1 E2 e2 d2 h2,
+  InnerOK C c tn fn dc hc -> StmtsOK tn (fn && negb hc) B1 cns d1 h1 ->
+  IfOK' E2 e2 tn (fn && negb hc && negb h1) d2 h2 ->
+  IfOK' (tk TIf :: tk TLParen :: C ++ tk TRParen :: braces B1 ++ tk TElse :: E2)
+        (EIf c cns (Some [SExpr e2])) tn fn (1 + N.max dc (N.max d1 d2)) (hc || h1 || h2).
+Proof.
+  intros C c tn fn dc hc B1 cns d1 h1 E2 e2 d2 h2 HC HB1 [[r2 EE2] HE2]. split; [eexists; reflexivity|].
+  intros rest f s Hcl Hpos Htn Hfn Hfit Hf.
+  cbn [app] in Hpos. rewrite <- app_assoc in Hpos. cbn [app] in Hpos.
+  rewrite <- app_assoc in Hpos. cbn [app] in Hpos.
+  apply pos_cons in Hpos. destruct Hpos as [Hcur Hbef].
+  len. rewrite !braces_len in Hf.
+  assert (HlenE : (1 <= List.length E2)%nat) by (subst E2; cbn [List.length]; lia).
+  destruct f as [|f]; try lia.
+  destruct (if_head _ _ _ _ _ _ _ _ _ _ HC HB1 (tk TElse :: E2 ++ rest) f s Hcur Hbef Htn Hfn)
+    as (s5 & E & Hb5 & Ht5 & Hd5 & Hi5); try lia; [eapply fits_le; [exact Hfit|lia]|].
+  rewrite E. unfold if_tail. rewrite (peek_is_hd _ _ _ _ Hb5). cbn [tty tk tokty_beq].
+  destruct (before_step _ _ _ Hb5) as [_ Hb6].
+  assert (Hpk : peek_is (next s5) TIf = true).
+  { unfold peek_is. rewrite (proj1 Hb6). subst E2. reflexivity. }
+  rewrite Hpk.
+  destruct (HE2 rest f (next (next s5))) as (s7 & E7 & Hb7 & Ht7 & Hd7 & Hi7).
+  { exact Hcl. }
+  { apply before_next. exact Hb6. }
+  { autorewrite with st. congruence. }
+  { autorewrite with st. exact Hi5. }
+  { autorewrite with st. rewrite Hd5. eapply fits_sub; [exact Hfit|lia]. }
+  { lia. }
+  rewrite E7. cbn [pbind restore].
+  eexists; split; [reflexivity|]. autorewrite with st in *. post_tac.
+  rewrite Hi7, Hi5, Hfn. destruct fn, hc, h1, h2; reflexivity.
 Qed.
 
 (* ------------------------------------------------------------------ *)
@@ -1889,14 +1952,19 @@ Qed.
 (* from the printable trees to the invariants                          *)
 (* ------------------------------------------------------------------ *)
 
+Definition is_if (e : expr) : bool := match e with EIf _ _ _ => true | _ => false end.
+
 Definition Pe (x : expr) : Prop := forall tn fn, pe tn fn x = true -> flk pf x ->
-  InnerOK (show_inner x) x tn fn (din x) (hasfn x) /\ PrefOK (show_expr x) x tn fn (dop x) (hasfn x).
+  (InnerOK (show_inner x) x tn fn (din x) (hasfn x) /\ PrefOK (show_expr x) x tn fn (dop x) (hasfn x)) /\
+  (is_if x = true -> IfOK' (show_inner x) x tn fn (din x - 1) (hasfn x)).
 
 Definition is_post (st : stmt) : bool := match st with SExpr (EPostfix _ _) => true | _ => false end.
 Definition is_id (st : stmt) : option str := match st with SExpr (EIdent n) => Some n | _ => None end.
 
-Definition Qs (st : stmt) : Prop := forall tn fn, is_post st = false -> ps tn fn st = true -> flk_s pf st ->
-  StmtOK (show_stmt st) st tn fn (din_s st) (hasfn_s st).
+Definition Qs (st : stmt) : Prop :=
+  (forall tn fn, is_post st = false -> ps tn fn st = true -> flk_s pf st ->
+     StmtOK (show_stmt st) st tn fn (din_s st) (hasfn_s st)) /\
+  Pe (match st with SReturn e => e | SExpr e => e end).
 
 Lemma both_simple : forall e tn fn d hf, simple e = true -> din e = 1 + d ->
   PrefOK (show_inner e) e tn fn d hf ->
@@ -1924,7 +1992,7 @@ Proof.
   - cbn [thread] in Ht. apply andb_true_iff in Ht. destruct Ht as [Ht1 Ht2].
     cbn [all_p] in Hf. destruct Hf as [Hf1 Hf2].
     cbn [map maxl fold_right existsb]. constructor.
-    + apply (Hx tn fn Ht1 Hf1).
+    + apply (proj1 (proj1 (Hx tn fn Ht1 Hf1))).
     + apply IH; assumption.
 Qed.
 
@@ -1942,8 +2010,8 @@ Proof.
     apply andb_true_iff in Ht1. destruct Ht1 as [Htk Htv].
     cbn [all_p fst snd] in Hf. destruct Hf as [[Hfk Hfv] Hf2]. cbn [fst snd] in *.
     cbn [map maxl fold_right existsb fst snd]. constructor.
-    + apply (Hk tn fn Htk Hfk).
-    + apply (Hv tn _ Htv Hfv).
+    + apply (proj1 (proj1 (Hk tn fn Htk Hfk))).
+    + apply (proj1 (proj1 (Hv tn _ Htv Hfv))).
     + apply IH; assumption.
 Qed.
 
@@ -2000,7 +2068,7 @@ Proof.
     destruct (is_id s) as [n|] eqn:Eid.
     + destruct l as [|s2 l2].
       * cbn [map maxl fold_right existsb]. apply SO_cons; [|constructor].
-        apply (HQs tn fn Hhd Ht1 Hf1).
+        apply (proj1 HQs tn fn Hhd Ht1 Hf1).
       * destruct (is_post s2) eqn:Ep2.
         -- apply is_id_some in Eid. subst s. destruct (is_post_true _ Ep2) as (m & op & ->).
            rewrite paired_step in Hpa. apply andb_true_iff in Hpa. destruct Hpa as [Hnm Hpa2].
@@ -2016,13 +2084,13 @@ Proof.
            ++ cbn [List.length] in Hlen. lia.
            ++ destruct l2 as [|s3 l3]; [exact I|]. cbn [is_id] in Hpa2. apply (paired_head _ _ Hpa2).
         -- cbn [map maxl fold_right existsb]. apply SO_cons.
-           ++ apply (HQs tn fn Hhd Ht1 Hf1).
+           ++ apply (proj1 HQs tn fn Hhd Ht1 Hf1).
            ++ apply (IH (s2 :: l2)) with (prev := Some n); try assumption.
               ** lia.
     + cbn [map maxl fold_right existsb]. apply SO_cons.
       * replace (match l with [] => show_stmt s | _ :: _ => show_stmt s end) with (show_stmt s)
           by (destruct l; reflexivity).
-        apply (HQs tn fn Hhd Ht1 Hf1).
+        apply (proj1 HQs tn fn Hhd Ht1 Hf1).
       * apply (IH l) with (prev := None); try assumption.
         -- lia.
         -- destruct l as [|s2 l2]; [exact I|]. apply (paired_head _ _ Hpa).
@@ -2080,7 +2148,7 @@ Proof.
       cbn [existsb map maxl fold_right] in *.
       cbn [show_choice map commas].
       apply CO_case.
-      * apply (HPx tn fn Htx Hfx).
+      * apply (proj1 (proj1 (HPx tn fn Htx Hfx))).
       * apply elems_ok; assumption.
       * apply stmts_ok; assumption.
       * apply IH; assumption.
@@ -2095,31 +2163,31 @@ Qed.
 
 Lemma case_int : forall t v, Pe (EInt t v).
 Proof.
-  intros t v tn fn Hp Hf. apply (both_simple (EInt t v) tn fn 0); [reflexivity|reflexivity|].
+  intros t v tn fn Hp Hf. split; [|intros Hif; discriminate Hif]. apply (both_simple (EInt t v) tn fn 0); [reflexivity|reflexivity|].
   apply pref_int. apply int_ok_parse. exact Hp.
 Qed.
 Lemma case_float : forall t v, Pe (EFloat t v).
 Proof.
-  intros t v tn fn Hp Hf. apply (both_simple (EFloat t v) tn fn 0); [reflexivity|reflexivity|].
+  intros t v tn fn Hp Hf. split; [|intros Hif; discriminate Hif]. apply (both_simple (EFloat t v) tn fn 0); [reflexivity|reflexivity|].
   apply pref_float. exact Hf.
 Qed.
 Lemma case_str : forall s, Pe (EStr s).
-Proof. intros s tn fn Hp Hf. apply (both_simple (EStr s) tn fn 0); [reflexivity|reflexivity|]. apply pref_str. Qed.
+Proof. intros s tn fn Hp Hf. split; [|intros Hif; discriminate Hif]. apply (both_simple (EStr s) tn fn 0); [reflexivity|reflexivity|]. apply pref_str. Qed.
 Lemma case_bool : forall b, Pe (EBool b).
-Proof. intros b tn fn Hp Hf. apply (both_simple (EBool b) tn fn 0); [reflexivity|reflexivity|]. apply pref_bool. Qed.
+Proof. intros b tn fn Hp Hf. split; [|intros Hif; discriminate Hif]. apply (both_simple (EBool b) tn fn 0); [reflexivity|reflexivity|]. apply pref_bool. Qed.
 Lemma case_regexp : forall v fl, Pe (ERegexp v fl).
 Proof.
-  intros v fl tn fn Hp Hf. apply (both_simple (ERegexp v fl) tn fn 0); [reflexivity|reflexivity|].
+  intros v fl tn fn Hp Hf. split; [|intros Hif; discriminate Hif]. apply (both_simple (ERegexp v fl) tn fn 0); [reflexivity|reflexivity|].
   apply pref_regexp. exact Hp.
 Qed.
 Lemma case_ident : forall n, Pe (EIdent n).
-Proof. intros n tn fn Hp Hf. apply (both_simple (EIdent n) tn fn 0); [reflexivity|reflexivity|]. apply pref_ident. Qed.
+Proof. intros n tn fn Hp Hf. split; [|intros Hif; discriminate Hif]. apply (both_simple (EIdent n) tn fn 0); [reflexivity|reflexivity|]. apply pref_ident. Qed.
 
 Lemma case_prefix : forall op r, Pe r -> Pe (EPrefix op r).
 Proof.
   intros op r IH tn fn Hp Hf. cbn [pe] in Hp. apply andb_true_iff in Hp. destruct Hp as [Hop Hr].
-  cbn [flk] in Hf. destruct (IH tn fn Hr Hf) as [_ HPr].
-  apply both_compound; [reflexivity|].
+  cbn [flk] in Hf. destruct (IH tn fn Hr Hf) as [[_ HPr] _].
+  split; [|intros Hif; discriminate Hif]. apply both_compound; [reflexivity|].
   apply (inner_weaken _ _ _ _ (1 + (1 + dop r)) _ (hasfn r)); [|cbn [din]; fold (dop r); lia|reflexivity].
   apply (inner_prefix op (show_expr r) r tn fn (1 + dop r) (hasfn r) Hop).
   apply opnd_of_pref. exact HPr.
@@ -2138,8 +2206,8 @@ Proof. intros n H E. subst n. discriminate H. Qed.
 Lemma case_infix : forall op l r, Pe l -> Pe r -> Pe (EInfix op l r).
 Proof.
   intros op l r IHl IHr tn fn Hp Hf. cbn [pe] in Hp. apply andb_true_iff in Hp. destruct Hp as [Hl Hp].
-  cbn [flk] in Hf. destruct Hf as [Hfl Hfr]. destruct (IHl tn fn Hl Hfl) as [_ HPl].
-  apply both_compound; [reflexivity|].
+  cbn [flk] in Hf. destruct Hf as [Hfl Hfr]. destruct (IHl tn fn Hl Hfl) as [[_ HPl] _].
+  split; [|intros Hif; discriminate Hif]. apply both_compound; [reflexivity|].
   destruct (tokty_beq op TPeriod) eqn:Eop.
   - apply internal_tokty_dec_bl in Eop. subst op.
     destruct r; try discriminate Hp.
@@ -2149,7 +2217,7 @@ Proof.
     + cbn [hasfn]. rewrite orb_false_r. reflexivity.
   - assert (Hne : op <> TPeriod) by (intros E; subst op; discriminate Eop).
     apply andb_true_iff in Hp. destruct Hp as [Hop Hr].
-    destruct (IHr tn _ Hr Hfr) as [_ HPr].
+    destruct (IHr tn _ Hr Hfr) as [[_ HPr] _].
     rewrite (show_infix_other _ _ _ Hne), (din_infix_other _ _ _ Hne).
     apply (inner_weaken _ _ _ _ (N.max (1 + dop l) (2 + (1 + dop r))) _ (hasfn l || hasfn r)); [|lia|reflexivity].
     apply (inner_infix op _ l _ r tn fn _ _ _ _ Hop HPl). apply opnd_of_pref. exact HPr.
@@ -2166,9 +2234,9 @@ Proof.
   apply andb_true_iff in Hp. destruct Hp as [Htn Hpc].
   apply negb_true_iff in Htn. subst tn.
   cbn [flk] in Hf. destruct Hf as (Hfc & Hft & Hff).
-  destruct (IHc _ _ Hpc Hfc) as [_ HPc]. destruct (IHt _ _ Hpt Hft) as [HIt _].
-  destruct (IHf _ _ Hpf Hff) as [HIf _].
-  apply both_compound; [reflexivity|].
+  destruct (IHc _ _ Hpc Hfc) as [[_ HPc] _]. destruct (IHt _ _ Hpt Hft) as [[HIt _] _].
+  destruct (IHf _ _ Hpf Hff) as [[HIf _] _].
+  split; [|intros Hif; discriminate Hif]. apply both_compound; [reflexivity|].
   apply (inner_ternary _ c _ t _ f fn _ _ _ _ _ _ HPc HIt HIf).
 Qed.
 
@@ -2178,14 +2246,14 @@ Proof. intros l H; exact H. Qed.
 Lemma case_array : forall l, Forall Pe l -> Pe (EArray l).
 Proof.
   intros l IH tn fn Hp Hf. cbn [pe] in Hp. cbn [flk] in Hf.
-  apply (both_simple (EArray l) tn fn (maxl (map din l))); [reflexivity|reflexivity|].
+  split; [|intros Hif; discriminate Hif]. apply (both_simple (EArray l) tn fn (maxl (map din l))); [reflexivity|reflexivity|].
   apply (pref_array tn fn _ l _ _ (elems_ok tn l IH fn Hp Hf)).
 Qed.
 
 Lemma case_hash : forall l, Forall (fun kv : expr * expr => Pe (fst kv) /\ Pe (snd kv)) l -> Pe (EHash l).
 Proof.
   intros l IH tn fn Hp Hf. cbn [pe] in Hp. cbn [flk] in Hf.
-  apply (both_simple (EHash l) tn fn (maxl (map (fun kv => N.max (din (fst kv)) (din (snd kv))) l)));
+  split; [|intros Hif; discriminate Hif]. apply (both_simple (EHash l) tn fn (maxl (map (fun kv => N.max (din (fst kv)) (din (snd kv))) l)));
     [reflexivity|reflexivity|].
   apply (pref_hash tn fn _ l _ _ (pairs_ok tn l IH fn Hp Hf)).
 Qed.
@@ -2194,8 +2262,8 @@ Lemma case_index : forall l i, Pe l -> Pe i -> Pe (EIndex l i).
 Proof.
   intros l i IHl IHi tn fn Hp Hf. cbn [pe] in Hp. apply andb_true_iff in Hp. destruct Hp as [Hl Hi].
   cbn [flk] in Hf. destruct Hf as [Hfl Hfi].
-  destruct (IHl _ _ Hl Hfl) as [_ HPl]. destruct (IHi _ _ Hi Hfi) as [HIi _].
-  apply both_compound; [reflexivity|].
+  destruct (IHl _ _ Hl Hfl) as [[_ HPl] _]. destruct (IHi _ _ Hi Hfi) as [[HIi _] _].
+  split; [|intros Hif; discriminate Hif]. apply both_compound; [reflexivity|].
   apply (inner_index _ l _ i tn fn _ _ _ _ HPl HIi).
 Qed.
 
@@ -2203,23 +2271,23 @@ Lemma case_call : forall f args, Pe f -> Forall Pe args -> Pe (ECall f args).
 Proof.
   intros f args IHf IHa tn fn Hp Hf. cbn [pe] in Hp. apply andb_true_iff in Hp. destruct Hp as [Hpf Hpa].
   cbn [flk] in Hf. destruct Hf as [Hff Hfa].
-  destruct (IHf _ _ Hpf Hff) as [_ HPf].
-  apply both_compound; [reflexivity|].
+  destruct (IHf _ _ Hpf Hff) as [[_ HPf] _].
+  split; [|intros Hif; discriminate Hif]. apply both_compound; [reflexivity|].
   apply (inner_call _ f tn fn _ _ _ args _ _ HPf (elems_ok tn args IHa _ Hpa Hfa)).
 Qed.
 
 Lemma case_assign : forall n v, Pe v -> Pe (EAssign n v).
 Proof.
   intros n v IHv tn fn Hp Hf. cbn [pe] in Hp. apply andb_true_iff in Hp. destruct Hp as [_ Hv].
-  cbn [flk] in Hf. destruct (IHv _ _ Hv Hf) as [HIv _].
-  apply both_compound; [reflexivity|].
+  cbn [flk] in Hf. destruct (IHv _ _ Hv Hf) as [[HIv _] _].
+  split; [|intros Hif; discriminate Hif]. apply both_compound; [reflexivity|].
   apply (inner_assign n _ v tn fn _ _ HIv).
 Qed.
 
 Lemma case_local : forall n, Pe (ELocal n).
 Proof.
   intros n tn fn Hp Hf. cbn [pe] in Hp. apply andb_true_iff in Hp. destruct Hp as [Hfn _]. subst fn.
-  apply both_compound; [reflexivity|].
+  split; [|intros Hif; discriminate Hif]. apply both_compound; [reflexivity|].
   apply inner_of_opnd. apply (opnd_of_pref _ _ _ _ _ _ (pref_local n tn)).
 Qed.
 
@@ -2228,6 +2296,41 @@ Lemma show_if_none : forall c cns,
   tk TIf :: tk TLParen :: show_inner c ++ tk TRParen :: braces (glue show_stmt cns).
 Proof. intros. cbn [show_inner]. rewrite app_nil_r. reflexivity. Qed.
 
+Definition elif_of (a : list stmt) : option expr :=
+  match a with [SExpr (EIf c b x)] => Some (EIf c b x) | _ => None end.
+
+Lemma show_if_some : forall c cns a,
+  show_inner (EIf c cns (Some a)) =
+  tk TIf :: tk TLParen :: show_inner c ++ tk TRParen :: braces (glue show_stmt cns) ++ tk TElse ::
+  match elif_of a with Some e2 => show_inner e2 | None => braces (glue show_stmt a) end.
+Proof.
+  intros c cns a. destruct a as [|[e|e] [|s2 a]]; try reflexivity; destruct e; reflexivity.
+Qed.
+
+Lemma din_if_some : forall c cns a,
+  din (EIf c cns (Some a)) =
+  2 + N.max (din c) (N.max (maxl (map din_s cns))
+                           (match elif_of a with Some e2 => din e2 - 1 | None => maxl (map din_s a) end)).
+Proof.
+  intros c cns a. destruct a as [|[e|e] [|s2 a]]; try reflexivity; destruct e; reflexivity.
+Qed.
+
+Lemma elif_some : forall a e2, elif_of a = Some e2 -> a = [SExpr e2] /\ is_if e2 = true.
+Proof.
+  intros a e2 H. destruct a as [|[e|e] [|s2 a]]; try discriminate H;
+    destruct e; try discriminate H. inversion H. split; reflexivity.
+Qed.
+
+Lemma if_triple : forall e tn fn D hf, simple e = false -> din e = 1 + D ->
+  IfOK' (show_inner e) e tn fn D hf ->
+  (InnerOK (show_inner e) e tn fn (din e) hf /\ PrefOK (show_expr e) e tn fn (dop e) hf) /\
+  (is_if e = true -> IfOK' (show_inner e) e tn fn (din e - 1) hf).
+Proof.
+  intros e tn fn D hf Hs Hd HIF. split.
+  - apply both_compound; [exact Hs|]. rewrite Hd. apply inner_of_prefc. apply prefc_of_if. exact HIF.
+  - intros _. rewrite Hd. replace (1 + D - 1) with D by lia. exact HIF.
+Qed.
+
 Lemma case_if : forall c cns alt, Pe c -> Forall Qs cns -> optQ Qs alt -> Pe (EIf c cns alt).
 Proof.
   intros c cns alt IHc IHcns IHalt tn fn Hp Hf. cbn [pe] in Hp.
@@ -2235,18 +2338,37 @@ Proof.
   apply andb_true_iff in Hp. destruct Hp as [Hp Hpa1].
   apply andb_true_iff in Hp. destruct Hp as [Hpc Ht1].
   cbn [flk] in Hf. destruct Hf as (Hfc & Hf1 & Hf2).
-  destruct (IHc _ _ Hpc Hfc) as [HIc _].
+  destruct (IHc _ _ Hpc Hfc) as [[HIc _] _].
   pose proof (stmts_ok tn cns IHcns _ Ht1 Hpa1 Hf1) as HS1.
-  apply both_compound; [reflexivity|].
   destruct alt as [a|].
   - apply andb_true_iff in Halt. destruct Halt as [Ht2 Hpa2]. cbn [optQ] in IHalt.
-    pose proof (stmts_ok tn a IHalt _ Ht2 Hpa2 Hf2) as HS2.
-    eapply inner_weaken; [apply inner_of_prefc; apply (prefc_if_some _ c tn fn _ _ _ cns _ _ _ a _ _ HIc HS1 HS2)| |reflexivity].
-    cbn [din]. lia.
-  - rewrite show_if_none.
-    eapply inner_weaken; [apply inner_of_prefc; apply (prefc_if_none _ c tn fn _ _ _ cns _ _ HIc HS1)| |].
+    destruct (elif_of a) as [e2|] eqn:Eel.
+    + destruct (elif_some _ _ Eel) as [-> Hif2].
+      inversion IHalt as [|? ? [_ HPe2] _]; subst. cbn [thread] in Ht2. rewrite andb_true_r in Ht2.
+      assert (Hpe2 : pe tn (fn && negb (hasfn c) && negb (existsb hasfn_s cns)) e2 = true)
+        by (destruct e2; try discriminate Hif2; exact Ht2).
+      cbn [all_p flk_s] in Hf2. destruct Hf2 as [Hfl2 _].
+      destruct (HPe2 _ _ Hpe2 Hfl2) as [_ HIF2]. specialize (HIF2 Hif2).
+      apply (if_triple _ tn fn (1 + N.max (din c) (N.max (maxl (map din_s cns)) (din e2 - 1)))).
+      * reflexivity.
+      * rewrite din_if_some, Eel. lia.
+      * rewrite show_if_some, Eel.
+        replace (hasfn (EIf c cns (Some [SExpr e2]))) with (hasfn c || existsb hasfn_s cns || hasfn e2)
+          by (cbn [hasfn existsb hasfn_s]; rewrite orb_false_r; reflexivity).
+        apply (if_elif _ c tn fn _ _ _ cns _ _ _ e2 _ _ HIc HS1 HIF2).
+    + pose proof (stmts_ok tn a IHalt _ Ht2 Hpa2 Hf2) as HS2.
+      apply (if_triple _ tn fn (1 + N.max (din c) (N.max (maxl (map din_s cns)) (maxl (map din_s a))))).
+      * reflexivity.
+      * rewrite din_if_some, Eel. lia.
+      * rewrite show_if_some, Eel.
+        apply (if_block _ c tn fn _ _ _ cns _ _ _ a _ _ HIc HS1 HS2).
+  - apply (if_triple _ tn fn (1 + N.max (din c) (maxl (map din_s cns)))).
+    + reflexivity.
     + cbn [din]. lia.
-    + cbn [hasfn]. rewrite orb_false_r. reflexivity.
+    + rewrite show_if_none.
+      replace (hasfn (EIf c cns None)) with (hasfn c || existsb hasfn_s cns)
+        by (cbn [hasfn]; rewrite orb_false_r; reflexivity).
+      apply (if_none _ c tn fn _ _ _ cns _ _ HIc HS1).
 Qed.
 
 Lemma case_while : forall c b, Pe c -> Forall Qs b -> Pe (EWhile c b).
@@ -2255,9 +2377,9 @@ Proof.
   apply andb_true_iff in Hp. destruct Hp as [Hp Hpa].
   apply andb_true_iff in Hp. destruct Hp as [Hpc Ht].
   cbn [flk] in Hf. destruct Hf as (Hfc & Hfb).
-  destruct (IHc _ _ Hpc Hfc) as [HIc _].
+  destruct (IHc _ _ Hpc Hfc) as [[HIc _] _].
   pose proof (stmts_ok tn b IHb _ Ht Hpa Hfb) as HS.
-  apply both_compound; [reflexivity|].
+  split; [|intros Hif; discriminate Hif]. apply both_compound; [reflexivity|].
   apply inner_of_prefc. apply (prefc_while _ c tn fn _ _ _ b _ _ HIc HS).
 Qed.
 
@@ -2268,9 +2390,9 @@ Proof.
   apply andb_true_iff in Hp. destruct Hp as [Hp Ht].
   apply andb_true_iff in Hp. destruct Hp as [_ Hpv].
   cbn [flk] in Hf. destruct Hf as (Hfv & Hfb).
-  destruct (IHv _ _ Hpv Hfv) as [HIv _].
+  destruct (IHv _ _ Hpv Hfv) as [[HIv _] _].
   pose proof (stmts_ok tn b IHb _ Ht Hpa Hfb) as HS.
-  apply both_compound; [reflexivity|].
+  split; [|intros Hif; discriminate Hif]. apply both_compound; [reflexivity|].
   apply inner_of_prefc. destruct idx as [|ch idx].
   - apply (prefc_foreach1 id _ v tn fn _ _ _ b _ _ HIv HS).
   - apply (prefc_foreach2 (ch :: idx) id _ v tn fn _ _ _ b _ _ HIv HS).
@@ -2283,7 +2405,7 @@ Proof.
   apply andb_true_iff in Hp. destruct Hp as [_ Ht].
   cbn [flk] in Hf.
   pose proof (stmts_ok tn b IHb _ Ht Hpa Hf) as HS.
-  apply both_compound; [reflexivity|].
+  split; [|intros Hif; discriminate Hif]. apply both_compound; [reflexivity|].
   apply inner_of_prefc. apply (prefc_function name prs tn fn _ b _ _ HS).
 Qed.
 
@@ -2295,9 +2417,9 @@ Proof.
   apply andb_true_iff in Hp. destruct Hp as [Hp Hcount].
   apply andb_true_iff in Hp. destruct Hp as [Hpv Ht].
   cbn [flk] in Hf. destruct Hf as (Hfv & Hfc).
-  destruct (IHv _ _ Hpv Hfv) as [HIv _].
+  destruct (IHv _ _ Hpv Hfv) as [[HIv _] _].
   pose proof (choices_ok tn cs IHcs _ Ht Hfc) as HC.
-  apply both_compound; [reflexivity|].
+  split; [|intros Hif; discriminate Hif]. apply both_compound; [reflexivity|].
   apply inner_of_prefc.
   apply (prefc_switch _ v tn fn _ _ _ cs _ _ HIv HC).
   rewrite <- count_def_eq. apply Nat.leb_le in Hcount. apply Nat.ltb_ge. exact Hcount.
@@ -2305,15 +2427,15 @@ Qed.
 
 Lemma case_return : forall e, Pe e -> Qs (SReturn e).
 Proof.
-  intros e IH tn fn _ Hp Hf. cbn [ps] in Hp. cbn [flk_s] in Hf.
-  destruct (IH _ _ Hp Hf) as [HI _]. apply (stmt_return _ e tn fn _ _ HI).
+  intros e IH. split; [|exact IH]. intros tn fn _ Hp Hf. cbn [ps] in Hp. cbn [flk_s] in Hf.
+  destruct (IH _ _ Hp Hf) as [[HI _] _]. apply (stmt_return _ e tn fn _ _ HI).
 Qed.
 
 Lemma case_expr : forall e, Pe e -> Qs (SExpr e).
 Proof.
-  intros e IH tn fn Hnp Hp Hf. cbn [flk_s] in Hf.
+  intros e IH. split; [|exact IH]. intros tn fn Hnp Hp Hf. cbn [flk_s] in Hf.
   assert (Hpe : pe tn fn e = true) by (destruct e; try exact Hp; discriminate Hnp).
-  destruct (IH _ _ Hpe Hf) as [HI _]. apply (stmt_expr _ e tn fn _ _ HI).
+  destruct (IH _ _ Hpe Hf) as [[HI _] _]. apply (stmt_expr _ e tn fn _ _ HI).
 Qed.
 
 Lemma Pe_all : forall e, Pe e.
@@ -2472,26 +2594,509 @@ Example nested_ternary :
   /\ printable [SExpr (ETernary (ETernary (I "b") (I "c") (I "d")) (I "a") (I "e"))] = true.
 Proof. vm_compute. repeat split. Qed.
 
-(* other spellings of printable trees: `for`, `else if`, `case default` *)
+(* other spellings of printable trees *)
 Example for_is_while :
   run [tk TFor; tk TLParen; id "c"; tk TRParen; tk TLBrace; tk TRBrace; tk TSemicolon] =
   ParseOk [SExpr (EWhile (I "c") [])].
 Proof. vm_compute. reflexivity. Qed.
-Example else_if_is_else_block :
-  run [tk TIf; tk TLParen; id "a"; tk TRParen; tk TLBrace; tk TRBrace; tk TElse;
-       tk TIf; tk TLParen; id "b"; tk TRParen; tk TLBrace; tk TRBrace; tk TSemicolon] =
-  ParseOk [SExpr (EIf (I "a") [] (Some [SExpr (EIf (I "b") [] None)]))]
-  /\ run (show_program [SExpr (EIf (I "a") [] (Some [SExpr (EIf (I "b") [] None)]))]) =
-     ParseOk [SExpr (EIf (I "a") [] (Some [SExpr (EIf (I "b") [] None)]))].
-Proof. vm_compute. split; reflexivity. Qed.
+(* the printer writes `else if`; the spelling `else { if ... ; }` gives the same tree *)
+Example else_if_printed :
+  show_program [SExpr (EIf (I "a") [] (Some [SExpr (EIf (I "b") [] None)]))] =
+  [tk TIf; tk TLParen; id "a"; tk TRParen; tk TLBrace; tk TRBrace; tk TElse;
+   tk TIf; tk TLParen; id "b"; tk TRParen; tk TLBrace; tk TRBrace; tk TSemicolon].
+Proof. vm_compute. reflexivity. Qed.
+Example else_block_same_tree :
+  run [tk TIf; tk TLParen; id "a"; tk TRParen; tk TLBrace; tk TRBrace; tk TElse; tk TLBrace;
+       tk TIf; tk TLParen; id "b"; tk TRParen; tk TLBrace; tk TRBrace; tk TSemicolon; tk TRBrace; tk TSemicolon] =
+  ParseOk [SExpr (EIf (I "a") [] (Some [SExpr (EIf (I "b") [] None)]))].
+Proof. vm_compute. reflexivity. Qed.
 
 (* ++ / -- remember the text of whatever token precedes them; only the form `name ++ ;` is printable *)
 Example postfix_remembers_any_token :
   run [tk TLParen; tk TPlusPlus; tk TRParen; tk TSemicolon] = ParseOk [SExpr (EPostfix (L "(") TPlusPlus)].
 Proof. vm_compute. reflexivity. Qed.
 
+(* `case default` is `default` *)
+Example case_default :
+  run [tk TSwitch; tk TLParen; id "x"; tk TRParen; tk TLBrace; tk TCase; tk TDefault; tk TLBrace; tk TRBrace;
+       tk TRBrace; tk TSemicolon] = ParseOk [SExpr (ESwitch (I "x") [(true, [], [])])].
+Proof. vm_compute. reflexivity. Qed.
+
+(* `a.1` and `a."b"` also parse (the operand's text becomes the string); only names are printable *)
+Example period_other_operands :
+  run [id "a"; tk TPeriod; mkTok TInt (L "1"); tk TSemicolon] = ParseOk [SExpr (EInfix TPeriod (I "a") (EStr (L "1")))]
+  /\ printable [SExpr (EInfix TPeriod (I "a") (EStr (L "1")))] = false.
+Proof. vm_compute. split; reflexivity. Qed.
+
 (* the right operand of `.` always comes out as a string *)
 Example period_makes_string :
   run [id "o"; tk TPeriod; id "name"; tk TSemicolon] = ParseOk [SExpr (EInfix TPeriod (I "o") (EStr (L "name")))].
 Proof. vm_compute. reflexivity. Qed.
 End Demo.
+
+(* ------------------------------------------------------------------ *)
+(* Stage 3: minimal parentheses for index / call / `.` / prefix        *)
+(* ------------------------------------------------------------------ *)
+
+Section XInd.
+Variable P : xtree -> Prop.
+Hypotheses
+  (XHId : forall n, P (XId n)) (XHInt : forall t v, P (XInt t v))
+  (XHBin : forall op l r, P l -> P r -> P (XBin op l r))
+  (XHPre : forall op r, P r -> P (XPre op r))
+  (XHIdx : forall l i, P l -> P i -> P (XIdx l i))
+  (XHDot : forall l n, P l -> P (XDot l n))
+  (XHCall : forall f args, P f -> Forall P args -> P (XCall f args)).
+Fixpoint xtree_ind2 (t : xtree) : P t :=
+  match t with
+  | XId n => XHId n
+  | XInt s v => XHInt s v
+  | XBin op l r => XHBin op l r (xtree_ind2 l) (xtree_ind2 r)
+  | XPre op r => XHPre op r (xtree_ind2 r)
+  | XIdx l i => XHIdx l i (xtree_ind2 l) (xtree_ind2 i)
+  | XDot l n => XHDot l n (xtree_ind2 l)
+  | XCall f args => XHCall f args (xtree_ind2 f)
+      ((fix go (l : list xtree) : Forall P l :=
+          match l with [] => Forall_nil _ | x :: l' => Forall_cons _ (xtree_ind2 x) (go l') end) args)
+  end.
+End XInd.
+
+Section Min.
+Variable pf : str -> option (option float).
+
+Definition keep (s s1 : pst) : Prop := tern s1 = tern s /\ infn s1 = infn s.
+
+(* the loop has consumed toks and built e (cf. GOK of ParserProofs): p < lo is what the
+   tree needs from its context, hi what it needs from the token that follows *)
+Definition XG (toks : list token) (e : expr) (lo hi : N) : Prop :=
+  forall p rest f s, p < lo -> stop hi rest -> pos (toks ++ rest) s -> (2 * List.length toks <= S f)%nat ->
+    exists k s1, (2 * k + 1 <= List.length toks)%nat /\ before rest s1 /\ keep s s1 /\
+      body pf f p s = infix_loop pf 0 (f - k) p e s1.
+
+Definition XE (toks : list token) (e : expr) (lo : N) : Prop :=
+  forall p rest f s, p < lo -> stop p rest -> pos (toks ++ rest) s -> (2 * List.length toks <= f)%nat ->
+    exists s', parse_expression pf 0 f p s = POk e s' /\ before rest s' /\ keep s s' /\ depth s' = depth s.
+
+Lemma fits0 : forall d n, fits 0 d n.
+Proof. intros. left. reflexivity. Qed.
+
+Lemma xg_to_xe : forall toks e lo hi, begins toks -> XG toks e lo hi -> lo <= hi + 1 -> XE toks e lo.
+Proof.
+  intros toks e lo hi Hb HG Hlh p rest f s Hp Hstop Hpos Hf.
+  pose proof (begins_len _ Hb) as Hlen. destruct f as [|f0]; [lia|].
+  pose proof (begins_cur _ _ _ Hb Hpos) as Hsp. destruct (sprefix_facts _ Hsp) as (Hpr & Hpo & _).
+  destruct (HG p rest f0 (set_depth s (depth s + 1)) Hp) as (k & s1 & Hk & Hbef & [Ht Hi] & Hbody).
+  - apply (stop_mono p hi); [lia|exact Hstop].
+  - apply pos_set_depth; exact Hpos.
+  - lia.
+  - rewrite (pe_from_body _ _ _ _ Hpo Hpr), Hbody.
+    assert (Hfk : (f0 - k = S (f0 - k - 1))%nat) by lia. rewrite Hfk.
+    rewrite (loop_stop _ _ _ _ _ _ Hbef Hstop). cbn [restore].
+    eexists; split; [reflexivity|]. autorewrite with st in *.
+    split; [apply before_set_depth; exact Hbef|]. split; [split; assumption|reflexivity].
+Qed.
+
+Lemma xe_paren : forall toks e lo, XE toks e lo -> 1 < lo ->
+  forall lo' hi', XG (tk TLParen :: toks ++ [tk TRParen]) e lo' hi'.
+Proof.
+  intros toks e lo HE Hlo lo' hi' p rest f s _ _ Hpos Hf.
+  cbn [app] in Hpos. rewrite <- app_assoc in Hpos. cbn [app] in Hpos.
+  apply pos_cons in Hpos. destruct Hpos as [Hcur Hbef]. len. destruct f as [|f1]; [lia|].
+  destruct (HE LOWEST (tk TRParen :: rest) f1 (next s)) as (s' & Hpe & Hbef' & [Ht Hi] & Hd).
+  - exact Hlo.
+  - apply stop_prec. apply N.le_refl.
+  - apply before_next. exact Hbef.
+  - lia.
+  - exists 0%nat, (next s'). split; [len; lia|].
+    destruct (before_step _ _ _ Hbef') as [_ Hb2]. split; [exact Hb2|].
+    split; [split; autorewrite with st in *; assumption|].
+    unfold body. rewrite parse_prefix_S, Hcur. cbn [tty tk tlit]. rewrite Hpe. cbn [pbind].
+    rewrite (expect_ok s' _ _ TRParen Hbef' eq_refl). cbn [pbind]. rewrite Nat.sub_0_r. reflexivity.
+Qed.
+
+Lemma xg_ident : forall n lo hi, XG [mkTok TIdent n] (EIdent n) lo hi.
+Proof.
+  intros n lo hi p rest f s _ _ Hpos Hf. cbn [app] in Hpos. apply pos_cons in Hpos.
+  destruct Hpos as [Hcur Hbef]. len. destruct f as [|f]; [lia|].
+  exists 0%nat, s. split; [len; lia|]. split; [exact Hbef|]. split; [split; reflexivity|].
+  unfold body. rewrite parse_prefix_S, Hcur. cbn [tty tlit pbind]. rewrite Nat.sub_0_r. reflexivity.
+Qed.
+
+Lemma xg_int : forall t v lo hi, parse_int t = Some v -> XG [mkTok TInt t] (EInt t v) lo hi.
+Proof.
+  intros t v lo hi Hv p rest f s _ _ Hpos Hf. cbn [app] in Hpos. apply pos_cons in Hpos.
+  destruct Hpos as [Hcur Hbef]. len. destruct f as [|f]; [lia|].
+  exists 0%nat, s. split; [len; lia|]. split; [exact Hbef|]. split; [split; reflexivity|].
+  unfold body. rewrite parse_prefix_S, Hcur. cbn [tty tlit]. rewrite Hv. cbn [pbind].
+  rewrite Nat.sub_0_r. reflexivity.
+Qed.
+
+Lemma xg_bin : forall op q Lt el ll hl Rt er lr, doc_prec op = Some q ->
+  XG Lt el ll hl -> q <= hl -> q <= ll -> XE Rt er lr -> q < lr -> (1 <= List.length Rt)%nat ->
+  XG (Lt ++ tk op :: Rt) (EInfix op el er) q q.
+Proof.
+  intros op q Lt el ll hl Rt er lr Hd HL Hhl Hll HR Hlr HlenR p rest f s Hp Hstop Hpos Hf.
+  destruct (doc_prec_facts op q Hd) as (Hprec & Hplain & Hinf & Hnp & Hns & _).
+  rewrite <- app_assoc in Hpos. cbn [app] in Hpos. len.
+  destruct (HL p (tk op :: Rt ++ rest) f s) as (kl & sl & Hkl & Hbl & [Htl Hil] & Hbody).
+  - lia.
+  - apply stop_prec. rewrite tty_tk, Hprec. exact Hhl.
+  - exact Hpos.
+  - lia.
+  - assert (Hfk : (f - kl = S (S (f - kl - 2)))%nat) by lia. rewrite Hfk in Hbody.
+    rewrite (loop_enter pf 0 _ p el sl (tk op) (Rt ++ rest) 1 Hbl) in Hbody;
+      [|rewrite tty_tk; apply tokty_beq_neq; exact Hns|rewrite tty_tk, Hprec; exact Hp
+       |rewrite tty_tk; exact Hinf|apply fits0|apply N.le_refl].
+    destruct (before_step _ _ _ Hbl) as [Hc Hb].
+    set (sB := set_depth (next sl) (depth sl + 1)) in *.
+    assert (HcB : curT sB = tk op) by exact Hc.
+    rewrite parse_infix_plain in Hbody; rewrite HcB, ?tty_tk in *; try assumption.
+    destruct (HR (prec_of op) rest (f - kl - 2)%nat (next sB)) as (sC & EC & HbC & [HtC HiC] & HdC).
+    + rewrite Hprec. exact Hlr.
+    + rewrite Hprec. exact Hstop.
+    + apply before_next. exact Hb.
+    + lia.
+    + rewrite EC in Hbody. cbn [pbind] in Hbody.
+      exists (S kl), sC. split; [len; lia|]. split; [exact HbC|].
+      split; [split; subst sB; autorewrite with st in *; congruence|].
+      rewrite Hbody. f_equal. lia.
+Qed.
+
+Lemma xg_pre : forall op Rt er lr, prefix_op op = true -> XE Rt er lr -> 12 < lr ->
+  forall lo, XG (tk op :: Rt) (EPrefix op er) lo 12.
+Proof.
+  intros op Rt er lr Hop HR Hlr lo p rest f s _ Hstop Hpos Hf.
+  cbn [app] in Hpos. apply pos_cons in Hpos. destruct Hpos as [Hcur Hbef]. len.
+  destruct f as [|f1]; [lia|].
+  destruct (HR PREFIX rest f1 (next s)) as (sC & EC & HbC & [HtC HiC] & HdC).
+  - exact Hlr.
+  - exact Hstop.
+  - apply before_next. exact Hbef.
+  - lia.
+  - exists 0%nat, sC. split; [len; lia|]. split; [exact HbC|].
+    split; [split; autorewrite with st in *; assumption|].
+    unfold body. rewrite parse_prefix_S, Hcur. cbn [tty tk tlit].
+    rewrite Nat.sub_0_r. destruct op; try discriminate Hop; rewrite EC; reflexivity.
+Qed.
+
+(* the first pass of the loop over `[`, `(` or `.` after the left operand *)
+Lemma xg_led : forall Lt el ll hl t toks p rest f s,
+  XG Lt el ll hl -> prec_of (tty t) <= hl -> p < ll -> p < prec_of (tty t) ->
+  tokty_beq (tty t) TSemicolon = false -> has_infix (tty t) = true ->
+  pos (Lt ++ t :: toks ++ rest) s -> (2 * List.length Lt + 4 <= S f)%nat ->
+  exists kl sB f2, (2 * kl + 1 <= List.length Lt)%nat /\ (f - kl = S (S f2))%nat /\
+    curT sB = t /\ before (toks ++ rest) sB /\ keep s sB /\
+    body pf f p s = pbind (parse_infix pf 0 (S f2) el sB) (fun lhs2 s3 => infix_loop pf 0 (S f2) p lhs2 s3).
+Proof.
+  intros Lt el ll hl t toks p rest f s HL Hhl Hpl Hpt Hns Hinf Hpos Hf.
+  destruct (HL p (t :: toks ++ rest) f s) as (kl & sl & Hkl & Hbl & [Htl Hil] & Hbody).
+  - exact Hpl.
+  - apply stop_prec. exact Hhl.
+  - exact Hpos.
+  - lia.
+  - exists kl, (set_depth (next sl) (depth sl + 1)), (f - kl - 2)%nat.
+    split; [exact Hkl|]. split; [lia|].
+    destruct (before_step _ _ _ Hbl) as [Hc Hb].
+    split; [exact Hc|]. split; [exact Hb|].
+    split; [split; autorewrite with st; assumption|].
+    assert (Hfk : (f - kl = S (S (f - kl - 2)))%nat) by lia. rewrite Hfk in Hbody.
+    rewrite (loop_enter pf 0 _ p el sl t (toks ++ rest) 1 Hbl Hns Hpt Hinf (fits0 _ _) (N.le_refl _)) in Hbody.
+    exact Hbody.
+Qed.
+
+Lemma xg_idx : forall Lt el ll hl It ei li, XG Lt el ll hl -> 14 <= hl -> 13 <= ll ->
+  XE It ei li -> 1 < li -> (1 <= List.length It)%nat ->
+  forall hi, XG (Lt ++ tk TLSquare :: It ++ [tk TRSquare]) (EIndex el ei) 13 hi.
+Proof.
+  intros Lt el ll hl It ei li HL Hhl Hll HI Hli HlenI hi p rest f s Hp _ Hpos Hf.
+  rewrite <- app_assoc in Hpos. cbn [app] in Hpos. len.
+  destruct (xg_led Lt el ll hl (tk TLSquare) (It ++ [tk TRSquare]) p rest f s HL) as
+    (kl & sB & f2 & Hkl & Hfk & HcB & HbB & [HtB HiB] & Hbody); try reflexivity.
+  - exact Hhl.
+  - lia.
+  - cbn [tty tk prec_of]. unfold P_INDEX. lia.
+  - exact Hpos.
+  - lia.
+  - rewrite <- app_assoc in HbB. cbn [app] in HbB.
+    destruct (HI LOWEST (tk TRSquare :: rest) f2 (next sB)) as (sC & EC & HbC & [HtC HiC] & HdC).
+    + exact Hli.
+    + apply stop_prec. apply N.le_refl.
+    + apply before_next. exact HbB.
+    + lia.
+    + rewrite parse_infix_S, HcB in Hbody. cbn [tty tk infix_plain] in Hbody.
+      rewrite EC in Hbody. cbn [pbind] in Hbody.
+      rewrite (expect_ok sC _ _ TRSquare HbC eq_refl) in Hbody. cbn [pbind] in Hbody.
+      destruct (before_step _ _ _ HbC) as [_ HbD].
+      exists (S kl), (next sC). split; [len; lia|]. split; [exact HbD|].
+      split; [split; autorewrite with st in *; congruence|].
+      rewrite Hbody. f_equal. lia.
+Qed.
+
+Lemma stop_14 : forall rest, stop 14 rest.
+Proof. intros rest. unfold stop. destruct (tty (hd eof_tok rest)); reflexivity. Qed.
+
+Lemma xg_dot : forall Lt el ll hl name, XG Lt el ll hl -> 14 <= hl -> 13 <= ll -> name <> [] ->
+  forall hi, XG (Lt ++ [tk TPeriod; mkTok TIdent name]) (EInfix TPeriod el (EStr name)) 13 hi.
+Proof.
+  intros Lt el ll hl name HL Hhl Hll Hname hi p rest f s Hp _ Hpos Hf.
+  rewrite <- app_assoc in Hpos. cbn [app] in Hpos. len.
+  destruct (xg_led Lt el ll hl (tk TPeriod) [mkTok TIdent name] p rest f s HL) as
+    (kl & sB & f2 & Hkl & Hfk & HcB & HbB & [HtB HiB] & Hbody); try reflexivity.
+  - exact Hhl.
+  - lia.
+  - cbn [tty tk prec_of]. unfold P_INDEX. lia.
+  - exact Hpos.
+  - lia.
+  - cbn [app] in HbB.
+    assert (HEid : XE [mkTok TIdent name] (EIdent name) 100).
+    { apply (xg_to_xe _ _ 100 100); [apply begins_cons; reflexivity|apply xg_ident|lia]. }
+    destruct (HEid P_INDEX rest f2 (next sB)) as (sC & EC & HbC & [HtC HiC] & HdC).
+    + reflexivity.
+    + apply stop_14.
+    + apply before_next. exact HbB.
+    + cbn [List.length]. lia.
+    + rewrite parse_infix_S, HcB in Hbody. cbn [tty tk infix_plain prec_of] in Hbody.
+      rewrite EC in Hbody. cbn [pbind] in Hbody. rewrite estr_ident in Hbody.
+      destruct name as [|c name]; [exfalso; apply Hname; reflexivity|]. cbn [pbind] in Hbody.
+      exists (S kl), sC. split; [len; lia|]. split; [exact HbC|].
+      split; [split; autorewrite with st in *; congruence|].
+      rewrite Hbody. f_equal. lia.
+Qed.
+
+Lemma closes_stop1 : forall rest, closes rest -> stop LOWEST rest.
+Proof. intros rest H. apply closes_stop; [exact H|apply N.le_refl]. Qed.
+
+Lemma xe_inner : forall toks e lo, begins toks -> XE toks e lo -> 1 < lo ->
+  forall tn fn dn, InnerOK pf 0 toks e tn fn dn false.
+Proof.
+  intros toks e lo Hb HE Hlo tn fn dn. split; [exact Hb|].
+  intros rest f s Hcl Hpos Htn Hfn _ Hf.
+  destruct (HE LOWEST rest f s Hlo (closes_stop1 _ Hcl) Hpos Hf) as (s' & E & Hb' & [Ht Hi] & Hd).
+  exists s'. split; [exact E|]. unfold post. rewrite andb_true_r. repeat split; try assumption; apply Hb'.
+Qed.
+
+Lemma xg_call : forall Lt el ll hl Xs xs, XG Lt el ll hl -> 13 <= hl -> 13 <= ll ->
+  (forall tn fn, exists dn, ElemsOK pf 0 tn fn Xs xs dn false) ->
+  forall hi, XG (Lt ++ tk TLParen :: commas Xs ++ [tk TRParen]) (ECall el xs) 13 hi.
+Proof.
+  intros Lt el ll hl Xs xs HL Hhl Hll HX hi p rest f s Hp _ Hpos Hf.
+  rewrite <- app_assoc in Hpos. cbn [app] in Hpos. len.
+  destruct (xg_led Lt el ll hl (tk TLParen) (commas Xs ++ [tk TRParen]) p rest f s HL) as
+    (kl & sB & f2 & Hkl & Hfk & HcB & HbB & [HtB HiB] & Hbody); try reflexivity.
+  - exact Hhl.
+  - lia.
+  - exact Hp.
+  - exact Hpos.
+  - lia.
+  - rewrite <- app_assoc in HbB. cbn [app] in HbB.
+    destruct (HX (tern sB) (infn sB)) as (dn & HE).
+    destruct (expr_list_ok pf 0 TRParen (or_introl eq_refl) _ _ Xs xs dn false HE rest f2 sB HbB eq_refl eq_refl
+                (fits0 _ _)) as (sC & EC & HbC & HtC & HdC & HiC).
+    + lia.
+    + rewrite parse_infix_S, HcB in Hbody. cbn [tty tk infix_plain] in Hbody.
+      rewrite EC in Hbody. cbn [pbind] in Hbody. rewrite andb_true_r in HiC.
+      exists (S kl), sC. split; [len; lia|]. split; [exact HbC|].
+      split; [split; congruence|].
+      rewrite Hbody. f_equal. lia.
+Qed.
+
+(* ---- the trees ---- *)
+
+Lemma begins_par : forall b toks, begins toks -> begins (par b toks).
+Proof. intros [|] toks H; [apply begins_cons; reflexivity|exact H]. Qed.
+
+Lemma par_len : forall b toks, (List.length toks <= List.length (par b toks))%nat.
+Proof. intros [|] toks; unfold par; len; lia. Qed.
+
+Lemma xlo_min : forall t, N.min (xhi t) 13 <= xlo t.
+Proof. intros t. destruct t; cbn [xhi xlo]; try (destruct (doc_prec op)); lia. Qed.
+
+Lemma xlo_hi : forall t, xlo t <= xhi t + 1.
+Proof. intros t. destruct t; cbn [xhi xlo]; try (destruct (doc_prec op)); lia. Qed.
+
+Lemma xwf_bin : forall op l r, xwf (XBin op l r) = true ->
+  exists q, doc_prec op = Some q /\ 3 <= q <= 11 /\ xwf l = true /\ xwf r = true.
+Proof.
+  intros op l r H. cbn [xwf] in H. apply andb_true_iff in H. destruct H as [H Hr].
+  apply andb_true_iff in H. destruct H as [H Hl].
+  destruct (doc_prec op) as [q|] eqn:E; [|discriminate H]. exists q.
+  destruct (doc_prec_facts op q E) as (_ & _ & _ & _ & _ & H3 & H11). repeat split; assumption.
+Qed.
+
+Lemma xlo_wf : forall t, xwf t = true -> 3 <= xlo t /\ 3 <= xhi t.
+Proof.
+  intros t H. destruct t; cbn [xlo xhi]; try lia.
+  destruct (xwf_bin _ _ _ H) as (q & E & Hq & _). rewrite E. lia.
+Qed.
+
+Definition XP (t : xtree) : Prop := xwf t = true ->
+  begins (show_x t) /\ XG (show_x t) (x_expr t) (xlo t) (xhi t).
+
+Lemma xp_xe : forall t, XP t -> xwf t = true -> XE (show_x t) (x_expr t) (xlo t).
+Proof. intros t H Hw. destruct (H Hw) as [Hb HG]. apply (xg_to_xe _ _ _ _ Hb HG (xlo_hi t)). Qed.
+
+(* a child on the left of an operator token of strength q *)
+Lemma xp_left : forall t q, XP t -> xwf t = true -> q <= 14 ->
+  begins (par (xhi t <? q) (show_x t)) /\
+  exists ll hl, XG (par (xhi t <? q) (show_x t)) (x_expr t) ll hl /\ q <= hl /\ N.min q 13 <= ll.
+Proof.
+  intros t q H Hw Hq. destruct (H Hw) as [Hb HG]. split; [apply begins_par; exact Hb|].
+  destruct (xhi t <? q) eqn:E.
+  - exists 100, 100. split; [|lia]. unfold par.
+    apply (xe_paren _ _ (xlo t) (xp_xe t H Hw)). pose proof (xlo_wf t Hw). lia.
+  - apply N.ltb_ge in E. exists (xlo t), (xhi t). split; [exact HG|]. split; [exact E|].
+    pose proof (xlo_min t). lia.
+Qed.
+
+(* a child on the right of an operator of strength q, or under a prefix operator (q = 12) *)
+Lemma xp_right : forall t q, XP t -> xwf t = true ->
+  begins (par (xlo t <=? q) (show_x t)) /\
+  exists lr, XE (par (xlo t <=? q) (show_x t)) (x_expr t) lr /\ q < lr.
+Proof.
+  intros t q H Hw. destruct (H Hw) as [Hb HG]. split; [apply begins_par; exact Hb|].
+  destruct (xlo t <=? q) eqn:E.
+  - exists (q + 1). split; [|lia]. unfold par.
+    apply (xg_to_xe _ _ _ (q + 1)); [apply begins_cons; reflexivity| |lia].
+    apply (xe_paren _ _ (xlo t) (xp_xe t H Hw)). pose proof (xlo_wf t Hw). lia.
+  - apply N.leb_gt in E. exists (xlo t). split; [apply xp_xe; assumption|exact E].
+Qed.
+
+Lemma xp_id : forall n, XP (XId n).
+Proof. intros n _. split; [apply begins_cons; reflexivity|apply xg_ident]. Qed.
+Lemma xp_int : forall t v, XP (XInt t v).
+Proof.
+  intros t v H. split; [apply begins_cons; reflexivity|]. apply xg_int. apply int_ok_parse. exact H.
+Qed.
+
+Lemma xp_bin : forall op l r, XP l -> XP r -> XP (XBin op l r).
+Proof.
+  intros op l r IHl IHr H. destruct (xwf_bin _ _ _ H) as (q & Hd & Hq & Hl & Hr).
+  cbn [show_x x_expr xlo xhi]. rewrite Hd.
+  destruct (xp_left l q IHl Hl) as (HbL & ll & hl & HGL & Hhl & Hll); [lia|].
+  destruct (xp_right r q IHr Hr) as (HbR & lr & HER & Hlr).
+  split; [apply begins_app; exact HbL|].
+  apply (xg_bin op q _ _ ll hl _ _ lr Hd HGL Hhl); [lia|exact HER|exact Hlr|apply begins_len; exact HbR].
+Qed.
+
+Lemma xp_pre : forall op r, XP r -> XP (XPre op r).
+Proof.
+  intros op r IHr H. cbn [xwf] in H. apply andb_true_iff in H. destruct H as [Hop Hr].
+  cbn [show_x x_expr xlo xhi].
+  destruct (xp_right r 12 IHr Hr) as (HbR & lr & HER & Hlr).
+  split; [apply begins_cons; destruct op; try discriminate Hop; reflexivity|].
+  apply (xg_pre op _ _ lr Hop HER Hlr).
+Qed.
+
+Lemma xp_idx : forall l i, XP l -> XP i -> XP (XIdx l i).
+Proof.
+  intros l i IHl IHi H. cbn [xwf] in H. apply andb_true_iff in H. destruct H as [Hl Hi].
+  cbn [show_x x_expr xlo xhi].
+  destruct (xp_left l 14 IHl Hl) as (HbL & ll & hl & HGL & Hhl & Hll); [lia|].
+  destruct (IHi Hi) as [HbI _]. pose proof (xlo_wf i Hi) as [Hlo _].
+  split; [apply begins_app; exact HbL|].
+  apply (xg_idx _ _ ll hl _ _ (xlo i) HGL Hhl); [lia|apply xp_xe; assumption|lia|apply begins_len; exact HbI].
+Qed.
+
+Lemma xp_dot : forall l n, XP l -> XP (XDot l n).
+Proof.
+  intros l n IHl H. cbn [xwf] in H. apply andb_true_iff in H. destruct H as [Hl Hn].
+  cbn [show_x x_expr xlo xhi].
+  destruct (xp_left l 14 IHl Hl) as (HbL & ll & hl & HGL & Hhl & Hll); [lia|].
+  split; [apply begins_app; exact HbL|].
+  apply (xg_dot _ _ ll hl n HGL Hhl); [lia|apply ident_ok_nonempty; exact Hn].
+Qed.
+
+Lemma xelems : forall args, Forall XP args -> forallb xwf args = true ->
+  forall tn fn, exists dn, ElemsOK pf 0 tn fn (map show_x args) (map x_expr args) dn false.
+Proof.
+  intros args H. induction H as [|x args Hx Hargs IH]; intros Hw tn fn.
+  - exists 0. constructor.
+  - cbn [forallb] in Hw. apply andb_true_iff in Hw. destruct Hw as [Hwx Hwa].
+    destruct (IH Hwa tn (fn && negb false)) as (dn & HE).
+    destruct (Hx Hwx) as [Hb _]. pose proof (xlo_wf x Hwx) as [Hlo _].
+    exists (N.max 0 dn). cbn [map].
+    apply (EO_cons pf 0 tn fn (show_x x) (x_expr x) 0 false _ _ dn false); [|exact HE].
+    apply (xe_inner _ _ (xlo x) Hb (xp_xe x Hx Hwx)). lia.
+Qed.
+
+Lemma xp_call : forall f args, XP f -> Forall XP args -> XP (XCall f args).
+Proof.
+  intros f args IHf IHa H. cbn [xwf] in H. apply andb_true_iff in H. destruct H as [Hf Ha].
+  cbn [show_x x_expr xlo xhi].
+  destruct (xp_left f 13 IHf Hf) as (HbL & ll & hl & HGL & Hhl & Hll); [lia|].
+  split; [apply begins_app; exact HbL|].
+  apply (xg_call _ _ ll hl _ _ HGL Hhl); [lia|]. apply xelems; assumption.
+Qed.
+
+Lemma XP_all : forall t, XP t.
+Proof.
+  apply xtree_ind2; [apply xp_id|apply xp_int|apply xp_bin|apply xp_pre|apply xp_idx|apply xp_dot|apply xp_call].
+Qed.
+
+Theorem parse_show_min_ext : forall t : xtree, xwf t = true ->
+  parse_tokens pf 0 (show_x t ++ [semi; eof]) = ParseOk [SExpr (x_expr t)].
+Proof.
+  intros t Hw. destruct (XP_all t Hw) as [Hb _]. pose proof (xlo_wf t Hw) as [Hlo _].
+  assert (HI : InnerOK pf 0 (show_x t) (x_expr t) false false 0 false).
+  { apply (xe_inner _ _ (xlo t) Hb (xp_xe t (XP_all t) Hw)). lia. }
+  pose proof (stmt_expr pf 0 _ _ _ _ _ _ HI) as HS.
+  assert (HSS : StmtsOK pf 0 false false ((show_x t ++ [tk TSemicolon]) ++ []) [SExpr (x_expr t)]
+                  (N.max 0 0) (false || false)).
+  { apply SO_cons; [exact HS|constructor]. }
+  rewrite app_nil_r in HSS.
+  unfold parse_tokens.
+  destruct (program_loop_ok pf 0 _ _ _ _ _ _ HSS [] (2 * List.length (show_x t ++ [semi; eof]) + 20)%nat
+              (init_pst (show_x t ++ [semi; eof]))) as (s' & E).
+  - replace (show_x t ++ [semi; eof]) with ((show_x t ++ [tk TSemicolon]) ++ [eof])
+      by (rewrite <- app_assoc; reflexivity).
+    apply pos_init.
+  - reflexivity.
+  - reflexivity.
+  - apply fits0.
+  - len. lia.
+  - rewrite E. reflexivity.
+Qed.
+End Min.
+
+Module DemoMin.
+Definition a := XId (L "a"). Definition b := XId (L "b"). Definition c := XId (L "c").
+Definition f := XId (L "f"). Definition n0 := XInt (L "0") 0.
+Definition lits (ts : list token) : list str := map tlit ts.
+
+(* -a[0] is -(a[0]);  (-a)[0] needs its parentheses *)
+Example neg_index : lits (show_x (XPre TMinus (XIdx a n0))) = [L "-"; L "a"; L "["; L "0"; L "]"]
+  /\ lits (show_x (XIdx (XPre TMinus a) n0)) = [L "("; L "-"; L "a"; L ")"; L "["; L "0"; L "]"].
+Proof. vm_compute. split; reflexivity. Qed.
+(* !f(a) && b *)
+Example not_call_and : lits (show_x (XBin TAnd (XPre TBang (XCall f [a])) b)) =
+  [L "!"; L "f"; L "("; L "a"; L ")"; L "&&"; L "b"].
+Proof. vm_compute. reflexivity. Qed.
+(* a.b[0](0, a + b)   and   -(a + b) * c   and   0 ** -a *)
+Example chain : lits (show_x (XCall (XIdx (XDot a (L "b")) n0) [n0; XBin TPlus a b])) =
+  [L "a"; L "."; L "b"; L "["; L "0"; L "]"; L "("; L "0"; L ","; L "a"; L "+"; L "b"; L ")"].
+Proof. vm_compute. reflexivity. Qed.
+Example neg_sum_times : lits (show_x (XBin TAsterisk (XPre TMinus (XBin TPlus a b)) c)) =
+  [L "-"; L "("; L "a"; L "+"; L "b"; L ")"; L "*"; L "c"].
+Proof. vm_compute. reflexivity. Qed.
+
+Definition tests : list xtree :=
+  [ XPre TMinus (XIdx a n0); XIdx (XPre TMinus a) n0; XBin TAnd (XPre TBang (XCall f [a])) b;
+    XCall (XIdx (XDot a (L "b")) n0) [n0; XBin TPlus a b]; XPre TMinus (XPre TBang a);
+    XBin TAsterisk (XPre TMinus (XBin TPlus a b)) c; XBin TPow n0 (XPre TMinus a);
+    XCall (XBin TPlus a b) [c]; XBin TMod (XPre TSqrt a) (XIdx b (XBin TMinus c n0));
+    XDot (XCall f []) (L "x"); XIdx (XBin TPlus a b) c; XPre TBang (XBin TEq a b);
+    XBin TMinus (XBin TMinus a b) (XBin TMinus c a); XCall (XPre TMinus f) [];
+    XDot (XPre TMinus a) (L "b"); XBin TPlus (XPre TMinus a) (XPre TMinus b) ].
+Example tests_wf : forallb xwf tests = true.
+Proof. vm_compute. reflexivity. Qed.
+(* by running the parser (the theorem says the same for every well-formed tree) *)
+Example tests_run : map (fun t => parse_tokens (fun _ => None) 0 (show_x t ++ [semi; eof])) tests =
+                    map (fun t => ParseOk [SExpr (x_expr t)]) tests.
+Proof. vm_compute. reflexivity. Qed.
+Example tests_thm : Forall (fun t => parse_tokens (fun _ => None) 0 (show_x t ++ [semi; eof]) =
+                                     ParseOk [SExpr (x_expr t)]) tests.
+Proof.
+  apply Forall_forall. intros t Hin. apply parse_show_min_ext.
+  pose proof tests_wf as H. rewrite forallb_forall in H. apply H. exact Hin.
+Qed.
+End DemoMin.
